@@ -30,6 +30,7 @@ var (
 	fFpOut   = flag.String("sim.fpout", "", "write distinct non-trivial fingerprints (binary uint64) here")
 	fMerge   = flag.String("sim.merge", "", "comma separated fingerprint files: print the number of distinct values")
 	fOnly    = flag.String("sim.only", "", "comma separated violation classes this check reports (others are counted as observations)")
+	fHashes  = flag.String("sim.hashes", "", "write one trace hash per run to this file (determinism self-test)")
 	fRetries = flag.Int("sim.retries", 1, "replay attempts (self-certifying classes may need several)")
 )
 
@@ -210,6 +211,7 @@ func TestSim(t *testing.T) {
 	fpsAll := map[uint64]struct{}{}
 	seenClass := map[string]bool{}
 	cases := map[string]struct{}{}
+	var hashes strings.Builder
 	for i := *fFrom; i < *fFrom+*fCount; i++ {
 		if *fBudget > 0 && time.Since(start) > *fBudget {
 			break
@@ -219,6 +221,9 @@ func TestSim(t *testing.T) {
 		wantTrace := len(out.Samples) < *fSamples || *fVerbose
 		res := execute(t, scn, tape, wantTrace)
 		out.Runs++
+		if *fHashes != "" {
+			fmt.Fprintf(&hashes, "%d %016x %d\n", i, res.TraceHash, res.Steps)
+		}
 		out.Steps += res.Steps
 		out.Switches += int64(res.Switches)
 		out.Overlaps += res.Overlaps
@@ -314,6 +319,9 @@ func TestSim(t *testing.T) {
 		out.Cases = append(out.Cases, c)
 	}
 	sort.Strings(out.Cases)
+	if *fHashes != "" {
+		_ = os.WriteFile(*fHashes, []byte(hashes.String()), 0o644)
+	}
 	if scn.Info != nil {
 		out.Info = scn.Info()
 	}
